@@ -57,7 +57,7 @@ func c09Gen(gen string) *ref.G {
 func init() {
 	engine.Register(&engine.Check{
 		ID: "C09", Level: "exploration",
-		Rule: "every closed ring of 3 (and 4) free vertices on the 4x4 (3x3 quick for 4) integer grid as LinearRing, single-ring Polygon and single-polygon MultiPolygon; every polyline of 0..3 grid points; every sequence of 0..3 rings over a 6-ring menu (empty, ccw, cw, quad, 1-point, 2-point) as Polygon; every sequence of 0..3 polygons over an 8-polygon menu (incl. no-ring and empty-ring polygons) as MultiPolygon; every sequence of 0..3 lines over a 4-line menu as MultiLineString; plus large instances (rings and lines of 10/100/1000 lattice vertices, polygons of up to 200 rings, multipolygons of up to 260 polygons incl. empty ones) x layouts (extra ordinates are distractors) x exact scalings 2^k; Area/Length vs rational shoelace and 256-bit sqrt sums with a forward error bound; additivity against part accessors; totality (no panic). distinct_nontrivial = distinct geometries with at least one segment Also: one very long part per kind with 2^k-1, 2^k, 2^k+1 coordinates up to 2^15 (thorough 2^17), and every query / in-place change / query history of length <=3 (thorough 4) on live geometries (writes through FlatCoords, Coord(i) and part accessors, TransformInPlace, Reverse, SetCoords, Push).",
+		Rule: "every closed ring of 3 (and 4) free vertices on the 4x4 (3x3 quick for 4) integer grid as LinearRing, single-ring Polygon and single-polygon MultiPolygon; every polyline of 0..3 grid points; every sequence of 0..3 rings over a 6-ring menu (empty, ccw, cw, quad, 1-point, 2-point) as Polygon; every sequence of 0..3 polygons over an 8-polygon menu (incl. no-ring and empty-ring polygons) as MultiPolygon; every sequence of 0..3 lines over a 4-line menu as MultiLineString; plus large instances (rings and lines of 10/100/1000 lattice vertices, polygons of up to 200 rings, multipolygons of up to 260 polygons incl. empty ones) x layouts (extra ordinates are distractors) x exact scalings 2^k; plus mixed magnitudes (every closed quadrilateral on {-2,-1,1,2}^2 with one ordinate of the first or third vertex scaled by 2^40 or 2^80); Area/Length vs rational shoelace and 256-bit sqrt sums with a forward error bound; additivity against part accessors; totality (no panic). distinct_nontrivial = distinct geometries with at least one segment Also: one very long part per kind with 2^k-1, 2^k, 2^k+1 coordinates up to 2^15 (thorough 2^17), and every query / in-place change / query history of length <=3 (thorough 4) on live geometries (writes through FlatCoords, Coord(i) and part accessors, TransformInPlace, Reverse, SetCoords, Push).",
 		Run:  c09Run,
 		Replay: func(c *engine.Ctx, kind string, raw json.RawMessage) {
 			if kind == "c09-history" {
@@ -135,6 +135,49 @@ func c09Run(c *engine.Ctx) {
 			for _, d := range quadGrid {
 				for _, e := range quadGrid {
 					addRing(closed(a, b, d, e))
+				}
+			}
+		}
+	}
+	// mixed magnitudes: every closed quadrilateral on the grid {-2,-1,1,2}^2 (symmetric about both
+	// axes, so trapezoid terms x[i]+x[i-1] cancel exactly on many edges) with the X of the first
+	// or of the third vertex, or the Y of the first, scaled by 2^40 / 2^80: the forward bound of the
+	// trapezoid sum is taken over its own terms, so a far vertex between two level edges
+	// contributes nothing to it
+	sym := []float64{-2, -1, 1, 2}
+	var symPts []pt2
+	for _, x := range sym {
+		for _, y := range sym {
+			symPts = append(symPts, pt2{x, y})
+		}
+	}
+	mixedStep := 1
+	if !c.Thorough() {
+		mixedStep = 2 // quick: first vertex from every second grid point
+	}
+	for ai := 0; ai < len(symPts); ai += mixedStep {
+		a := symPts[ai]
+		for _, b := range symPts {
+			for _, d := range symPts {
+				for _, e := range symPts {
+					for v := 0; v < 4; v++ {
+						q := []pt2{a, b, d, e}
+						switch v {
+						case 0:
+							q[0][0] *= math.Ldexp(1, 40)
+						case 1:
+							q[0][0] *= math.Ldexp(1, 80)
+						case 2:
+							q[2][0] *= math.Ldexp(1, 40)
+						case 3:
+							q[0][1] *= math.Ldexp(1, 40)
+						}
+						r := ringC(closed(q...), geom.XY, ref.Counter())
+						add(&ref.G{Kind: ref.LinearRing, Layout: geom.XY, C1: r})
+						if v == 0 {
+							add(&ref.G{Kind: ref.MultiPolygon, Layout: geom.XY, C3: [][][]ref.C{{r}}})
+						}
+					}
 				}
 			}
 		}
